@@ -320,6 +320,13 @@ def pattern_shl(context, tree, c0, c1):
 
 
 @isa.pattern("reg", "SHRI32(reg, reg)", size=4, cycles=1, energy=1)
+def pattern_shr_i32(context, tree, c0, c1):
+    # signed values are shifted arithmetically
+    d = context.new_reg(MipsRegister)
+    context.emit(Srav(d, c0, c1))
+    return d
+
+
 @isa.pattern("reg", "SHRU32(reg, reg)", size=4, cycles=1, energy=1)
 def pattern_shr(context, tree, c0, c1):
     d = context.new_reg(MipsRegister)
